@@ -311,6 +311,13 @@ func main() {
 		decode func(b []byte) (reenc []byte, id []byte, err error)
 		stable func(b []byte) string // for accepted bytes: "" or why the ID is not stable under re-encoding
 	}
+	headerSeed := func() []byte {
+		h := &blockchain.BlockHeader{Version: 2, Timestamp: 100, Height: 3, PreviousBlockID: bytes.Repeat([]byte{1}, 32), GeneratorAddress: bytes.Repeat([]byte{2}, 20),
+			TransactionRoot: bytes.Repeat([]byte{3}, 32), AssetRoot: bytes.Repeat([]byte{4}, 32), EventRoot: bytes.Repeat([]byte{5}, 32), StateRoot: bytes.Repeat([]byte{6}, 32),
+			MaxHeightPrevoted: 1, MaxHeightGenerated: 2, ImpliesMaxPrevotes: true, ValidatorsHash: bytes.Repeat([]byte{7}, 32),
+			AggregateCommit: &blockchain.AggregateCommit{Height: 1, AggregationBits: []byte{1}, CertificateSignature: bytes.Repeat([]byte{8}, 96)}, Signature: bytes.Repeat([]byte{9}, 64)}
+		return h.Encode()
+	}
 	blockSeed := func() []byte {
 		h := &blockchain.BlockHeader{Version: 2, Timestamp: 100, Height: 3, PreviousBlockID: bytes.Repeat([]byte{1}, 32), GeneratorAddress: bytes.Repeat([]byte{2}, 20),
 			TransactionRoot: bytes.Repeat([]byte{3}, 32), AssetRoot: bytes.Repeat([]byte{4}, 32), EventRoot: bytes.Repeat([]byte{5}, 32), StateRoot: bytes.Repeat([]byte{6}, 32),
@@ -335,7 +342,10 @@ func main() {
 			}
 			return bl.Encode(), nil, nil
 		}, func(b []byte) string {
-			bl, _ := blockchain.NewBlock(b)
+			bl, err := blockchain.NewBlock(b)
+			if err != nil {
+				return ""
+			}
 			want := sha256.Sum256(bl.Header.Encode())
 			if !bytes.Equal(bl.Header.ID, want[:]) {
 				return "the block ID is not the hash of its (re-encoded) header"
@@ -345,14 +355,17 @@ func main() {
 			}
 			return ""
 		}},
-		{"BlockHeader", [][]byte{func() []byte { bl, _ := blockchain.NewBlock(blockSeed()); return bl.Header.Encode() }()}, func(b []byte) ([]byte, []byte, error) {
+		{"BlockHeader", [][]byte{headerSeed()}, func(b []byte) ([]byte, []byte, error) {
 			h, err := blockchain.NewBlockHeader(b)
 			if err != nil {
 				return nil, nil, err
 			}
 			return h.Encode(), nil, nil
 		}, func(b []byte) string {
-			h, _ := blockchain.NewBlockHeader(b)
+			h, err := blockchain.NewBlockHeader(b)
+			if err != nil {
+				return ""
+			}
 			want := sha256.Sum256(h.Encode())
 			if !bytes.Equal(h.ID, want[:]) {
 				return "the header ID is not the hash of its (re-encoded) bytes"
